@@ -21,6 +21,16 @@ func NewMsgServerImpl(keeper Keeper) types.MsgServer {
 
 var _ types.MsgServer = msgServer{}
 
+// canonicalValidator returns the canonical bech32 spelling of a validator address. Ballots and feeder delegations are
+// stored under the address string, and bech32 admits an all-upper-case spelling of every address.
+func canonicalValidator(addr string) (string, error) {
+	validator, err := sdk.ValAddressFromBech32(addr)
+	if err != nil {
+		return "", errorsmod.Wrapf(types.ErrInvalidValidator, "validator address %s is invalid", addr)
+	}
+	return validator.String(), nil
+}
+
 func (m msgServer) Prevote(goCtx context.Context, prevote *types.MsgPrevote) (*types.MsgPrevoteResponse, error) {
 	ctx := sdk.UnwrapSDKContext(goCtx)
 
@@ -34,9 +44,14 @@ func (m msgServer) Prevote(goCtx context.Context, prevote *types.MsgPrevote) (*t
 		return nil, errorsmod.Wrapf(types.ErrPrevotesNotAccepted, "prevote period is over")
 	}
 
+	validator, err := canonicalValidator(prevote.Validator)
+	if err != nil {
+		return nil, err
+	}
+
 	aggregatePrevote := types.AggregatePrevote{
 		Hash:  prevote.Hash,
-		Voter: prevote.Validator,
+		Voter: validator,
 	}
 	m.SetAggregatePrevote(ctx, aggregatePrevote)
 
@@ -67,8 +82,13 @@ func (m msgServer) Vote(goCtx context.Context, vote *types.MsgVote) (*types.MsgV
 		return nil, errorsmod.Wrapf(types.ErrInvalidVote, "invalid vote data")
 	}
 
+	validator, err := canonicalValidator(vote.Validator)
+	if err != nil {
+		return nil, err
+	}
+
 	// Check if the prevote exists
-	aggregatePrevote := m.GetAggregatePrevote(ctx, vote.Validator)
+	aggregatePrevote := m.GetAggregatePrevote(ctx, validator)
 	if aggregatePrevote == nil {
 		return nil, fmt.Errorf("aggregate prevote not found")
 	}
@@ -84,11 +104,11 @@ func (m msgServer) Vote(goCtx context.Context, vote *types.MsgVote) (*types.MsgV
 
 	aggregateVote := types.AggregateVote{
 		VoteData: vote.VoteData,
-		Voter:    vote.Validator,
+		Voter:    validator,
 	}
 
 	m.SetAggregateVote(ctx, aggregateVote)
-	m.DeleteAggregatePrevote(ctx, vote.Validator)
+	m.DeleteAggregatePrevote(ctx, validator)
 
 	err = ctx.EventManager().EmitTypedEvent(&types.EventVote{
 		Feeder:    vote.Feeder,
@@ -111,7 +131,7 @@ func (m msgServer) FeederDelegationConsent(goCtx context.Context, consent *types
 		return nil, errorsmod.Wrapf(types.ErrValidatorNotFound, "validator %s is not active", validator.String())
 	}
 
-	err := m.SetFeederDelegation(ctx, consent.Validator, consent.FeederAddress)
+	err := m.SetFeederDelegation(ctx, validator.String(), consent.FeederAddress)
 	if err != nil {
 		return nil, err
 	}
